@@ -942,9 +942,11 @@ class HfProtocol(utils.EventEmitter):
                 "AT+CHLD=?", response_type=AtResponseType.SINGLE
             )
 
+            # (an empty list is reported as "()")
             self.supported_ag_call_hold_operations = [
                 CallHoldOperation(operation.decode())
                 for operation in response.parameters[0]
+                if operation
             ]
 
         # 4.2.1.4 HF Indicators
@@ -970,6 +972,9 @@ class HfProtocol(utils.EventEmitter):
 
             logger.info("supported HF indicators:")
             for indicator in response.parameters[0]:
+                if not indicator:
+                    # An empty list is reported as "()"
+                    continue
                 indicator = HfIndicator(int(indicator))
                 logger.info(f"  - {indicator.name}")
                 if indicator in self.hf_indicators:
